@@ -440,3 +440,342 @@ Section ValueProofs.
     exists c m', pack_cache enc m = Ok c /\ unpack_cache dec c = Ok m' /\ view m' = view m.
   Proof. intros bs m Hb Hu. apply value_unchanged. eapply unpack_msg_wf; eauto. Qed.
 End ValueProofs.
+
+(* ---------- C07_repeat_hits: a stored key is found again while more than 1 s of its lifetime remains ---------- *)
+(* quiescent states: no lock is held *)
+Definition QU (s : state) : Prop := forall e, e_w (ents s e) = None /\ e_r (ents s e) = [].
+(* the backend clock lags real time by less than one second *)
+Definition clock_ok (s : state) : Prop := (bclk s <= now s)%N /\ (now s < bclk s + 1000)%N.
+
+Lemma ceil_s_ge ttl : (ttl <= ceil_s ttl)%N.
+Proof.
+  unfold ceil_s. pose proof (N.div_mod (ttl + 999) 1000). pose proof (N.mod_lt (ttl + 999) 1000). lia.
+Qed.
+
+Lemma drive_idle f t s : thr s t = Idle -> drive f t s = Some s.
+Proof. intros H. destruct f; cbn [drive]; rewrite H; reflexivity. Qed.
+
+Lemma drive_next f t s s1 : thr s t <> Idle -> step_thread s t None = Some s1 -> drive (S f) t s = drive f t s1.
+Proof.
+  intros Hn Hs. cbn [drive]. change (step s (LStep t None)) with (step_thread s t None). rewrite Hs.
+  destruct (thr s t); try reflexivity. congruence.
+Qed.
+
+Lemma init_QU : QU init. Proof. intros e. cbn. auto. Qed.
+Lemma init_clock : clock_ok init. Proof. unfold clock_ok; cbn. lia. Qed.
+
+(* Get on a quiescent state: runs to completion, changes nothing but the trace (and thread bookkeeping), and
+   its result is determined by the backend binding and the entry it points to *)
+Definition get_result (s : state) (k : list N) : event :=
+  match find_b k (backend s) with
+  | Some b =>
+    if (bclk s <? b_exp b)%N then
+      match e_v (ents s (b_e b)) with
+      | Some v => if list_eqb (e_k (ents s (b_e b))) k then EvHit k v else EvMiss k
+      | None => EvMiss k
+      end
+    else EvMiss k
+  | None => EvMiss k
+  end.
+
+Lemma rem_self t : rem t [t] = [].
+Proof. unfold rem. cbn. destruct (Nat.eq_dec t t); [reflexivity|congruence]. Qed.
+
+Lemma get_finish s sN t e ev :
+  backend sN = backend s -> now sN = now s -> bclk sN = bclk s -> trace sN = trace s ->
+  (forall e', e' <> e -> ents sN e' = ents s e') ->
+  ents sN e = mkEntry (e_k (ents s e)) (e_v (ents s e)) None [t] ->
+  e_w (ents s e) = None -> e_r (ents s e) = [] ->
+  forall s', s' = (let x := ents sN e in
+                   with_ev (with_thr (with_ent sN e (mkEntry (e_k x) (e_v x) (e_w x) (rem t (e_r x)))) t Idle) ev) ->
+  backend s' = backend s /\ (forall e', ents s' e' = ents s e') /\ now s' = now s /\ bclk s' = bclk s /\
+  trace s' = ev :: trace s.
+Proof.
+  intros B Nw C Tr Eo Ee Qw Qr s' ->. cbn. rewrite B, Nw, C, Tr. repeat split; auto.
+  intros e'. destruct (Nat.eq_dec e' e) as [->|Hne]; [|rewrite upd_other by exact Hne; auto].
+  rewrite upd_same, Ee. cbn [e_k e_v e_w e_r]. rewrite rem_self.
+  destruct (ents s e) as [xk xv xw xr]; cbn in *. subst. reflexivity.
+Qed.
+
+Lemma big_get_spec s k : QU s ->
+  exists s', big_get k s = Some s' /\ backend s' = backend s /\ (forall e, ents s' e = ents s e) /\
+             now s' = now s /\ bclk s' = bclk s /\ trace s' = get_result s k :: trace s.
+Proof.
+  intros Q. unfold big_get, get_result. cbn [step].
+  set (t := nthr s). set (s1 := spawn s (GLook k)).
+  assert (T1 : thr s1 t = GLook k) by (unfold s1, spawn; cbn; apply upd_same).
+  (* GLook *)
+  destruct (find_b k (backend s)) as [b|] eqn:Fb.
+  2:{ eexists. split.
+      - erewrite drive_next; [apply drive_idle| rewrite T1; discriminate|].
+        2:{ unfold step_thread. rewrite T1. unfold s1 at 1; cbn [backend spawn]. rewrite Fb. reflexivity. }
+        cbn. apply upd_same.
+      - cbn. repeat split; auto. }
+  destruct (bclk s <? b_exp b)%N eqn:Live.
+  2:{ eexists. split.
+      - erewrite drive_next; [apply drive_idle| rewrite T1; discriminate|].
+        2:{ unfold step_thread. rewrite T1. unfold s1 at 1 2; cbn [backend bclk spawn]. rewrite Fb, Live. reflexivity. }
+        cbn. apply upd_same.
+      - cbn. repeat split; auto. }
+  set (e := b_e b). destruct (Q e) as [Qw Qr].
+  set (s2 := with_thr s1 t (GTry k e)).
+  assert (S1 : step_thread s1 t None = Some s2).
+  { unfold step_thread. rewrite T1. unfold s1 at 1 2; cbn [backend bclk spawn]. rewrite Fb, Live. reflexivity. }
+  assert (T2 : thr s2 t = GTry k e) by (unfold s2; cbn; apply upd_same).
+  (* GTry *)
+  set (x := ents s e).
+  set (s3 := with_thr (with_ent s2 e (mkEntry (e_k x) (e_v x) None (t :: e_r x))) t (GCheck k e)).
+  assert (S2 : step_thread s2 t None = Some s3).
+  { unfold step_thread. rewrite T2. change (ents s2 e) with x. unfold x at 1. rewrite Qw. reflexivity. }
+  assert (T3 : thr s3 t = GCheck k e) by (unfold s3; cbn; apply upd_same).
+  assert (E3 : ents s3 e = mkEntry (e_k x) (e_v x) None [t]).
+  { unfold s3; cbn. rewrite upd_same. unfold x at 3. rewrite Qr. reflexivity. }
+  assert (O3 : forall e', e' <> e -> ents s3 e' = ents s e').
+  { intros e' Hne. unfold s3; cbn. rewrite upd_other by exact Hne. reflexivity. }
+  destruct (e_v x) as [v|] eqn:Ev; [destruct (list_eqb (e_k x) k) eqn:Ek|].
+  - (* hit *)
+    set (s4 := with_thr s3 t (GCopy k e)).
+    assert (S3 : step_thread s3 t None = Some s4).
+    { unfold step_thread. rewrite T3, E3. cbn [e_v e_k]. rewrite Ek. reflexivity. }
+    assert (T4 : thr s4 t = GCopy k e) by (unfold s4; cbn; apply upd_same).
+    set (s5 := with_thr s4 t (GUnlockHit k e v)).
+    assert (S4 : step_thread s4 t None = Some s5).
+    { unfold step_thread. rewrite T4. change (ents s4 e) with (ents s3 e). rewrite E3. reflexivity. }
+    assert (T5 : thr s5 t = GUnlockHit k e v) by (unfold s5; cbn; apply upd_same).
+    eexists. split.
+    + erewrite drive_next; [|rewrite T1; discriminate|exact S1].
+      erewrite drive_next; [|rewrite T2; discriminate|exact S2].
+      erewrite drive_next; [|rewrite T3; discriminate|exact S3].
+      erewrite drive_next; [|rewrite T4; discriminate|exact S4].
+      erewrite drive_next; [apply drive_idle|rewrite T5; discriminate|].
+      2:{ unfold step_thread. rewrite T5. reflexivity. }
+      cbn. apply upd_same.
+    + eapply (get_finish s s5 t e); try reflexivity; auto.
+      change (ents s5 e) with (ents s3 e). rewrite E3. fold x. rewrite Ev. reflexivity.
+  - (* the entry carries another key *)
+    set (s4 := with_thr s3 t (GUnlockMiss k e)).
+    assert (S3 : step_thread s3 t None = Some s4).
+    { unfold step_thread. rewrite T3, E3. cbn [e_v e_k]. rewrite Ek. reflexivity. }
+    assert (T4 : thr s4 t = GUnlockMiss k e) by (unfold s4; cbn; apply upd_same).
+    eexists. split.
+    + erewrite drive_next; [|rewrite T1; discriminate|exact S1].
+      erewrite drive_next; [|rewrite T2; discriminate|exact S2].
+      erewrite drive_next; [|rewrite T3; discriminate|exact S3].
+      erewrite drive_next; [apply drive_idle|rewrite T4; discriminate|].
+      2:{ unfold step_thread. rewrite T4. reflexivity. }
+      cbn. apply upd_same.
+    + eapply (get_finish s s4 t e); try reflexivity; auto.
+      change (ents s4 e) with (ents s3 e). rewrite E3. fold x. rewrite Ev. reflexivity.
+  - (* the entry has been released *)
+    set (s4 := with_thr s3 t (GUnlockMiss k e)).
+    assert (S3 : step_thread s3 t None = Some s4).
+    { unfold step_thread. rewrite T3, E3. reflexivity. }
+    assert (T4 : thr s4 t = GUnlockMiss k e) by (unfold s4; cbn; apply upd_same).
+    eexists. split.
+    + erewrite drive_next; [|rewrite T1; discriminate|exact S1].
+      erewrite drive_next; [|rewrite T2; discriminate|exact S2].
+      erewrite drive_next; [|rewrite T3; discriminate|exact S3].
+      erewrite drive_next; [apply drive_idle|rewrite T4; discriminate|].
+      2:{ unfold step_thread. rewrite T4. reflexivity. }
+      cbn. apply upd_same.
+    + eapply (get_finish s s4 t e); try reflexivity; auto.
+      change (ents s4 e) with (ents s3 e). rewrite E3. fold x. rewrite Ev. reflexivity.
+Qed.
+
+(* Store (Set, not SetIfAbsent) from the point where the entry has been taken from the pool *)
+Lemma store_from_lock sL t k v ttl e : thr sL t = SLock k v ttl false e -> QU sL ->
+  exists s2, drive 8 t sL = Some s2 /\
+    find_b k (backend s2) = Some (mkB k e (bclk sL + ceil_s ttl)) /\
+    ents s2 e = mkEntry k (Some v) None [] /\ QU s2 /\ now s2 = now sL /\ bclk s2 = bclk sL /\
+    (forall k', list_eqb k' k = false -> find_b k' (backend s2) = find_b k' (backend sL)) /\
+    (forall e', e' <> e -> ents s2 e' = ents sL e').
+Proof.
+  intros TL Q. set (x := ents sL e). destruct (Q e) as [Qw Qr]. fold x in Qw, Qr.
+  set (sA := with_thr (with_pool (with_ent sL e (mkEntry (e_k x) (e_v x) (Some (OwnT t)) (e_r x)))
+                                 (nent sL) (free sL) (rem e (issued sL))) t (SFillK k v ttl false e)).
+  assert (SA : step_thread sL t None = Some sA).
+  { assert (U : unlocked x = true) by (unfold unlocked; rewrite Qw, Qr; reflexivity).
+    unfold step_thread. rewrite TL. fold x. rewrite U. reflexivity. }
+  assert (TA : thr sA t = SFillK k v ttl false e) by (unfold sA; cbn; apply upd_same).
+  assert (EA : ents sA e = mkEntry (e_k x) (e_v x) (Some (OwnT t)) []).
+  { unfold sA; cbn. rewrite upd_same, Qr. reflexivity. }
+  set (sB := with_thr (with_ent sA e (mkEntry k (e_v x) (Some (OwnT t)) [])) t (SFillV k v ttl false e)).
+  assert (SB : step_thread sA t None = Some sB).
+  { unfold step_thread. rewrite TA, EA. reflexivity. }
+  assert (TB : thr sB t = SFillV k v ttl false e) by (unfold sB; cbn; apply upd_same).
+  assert (EB : ents sB e = mkEntry k (e_v x) (Some (OwnT t)) []) by (unfold sB; cbn; apply upd_same).
+  set (sC := with_thr (with_ent sB e (mkEntry k (Some v) None [])) t (SSet k ttl false e)).
+  assert (SC : step_thread sB t None = Some sC).
+  { unfold step_thread. rewrite TB, EB. reflexivity. }
+  assert (TC : thr sC t = SSet k ttl false e) by (unfold sC; cbn; apply upd_same).
+  assert (EC : ents sC e = mkEntry k (Some v) None []) by (unfold sC; cbn; apply upd_same).
+  assert (OC : forall e', e' <> e -> ents sC e' = ents sL e').
+  { intros e' Hne. unfold sC, sB, sA; cbn. rewrite !upd_other by exact Hne. reflexivity. }
+  assert (BC : backend sC = backend sL) by reflexivity.
+  assert (CC : bclk sC = bclk sL) by reflexivity.
+  assert (NC : now sC = now sL) by reflexivity.
+  set (nb := mkB k e (bclk sL + ceil_s ttl)).
+  assert (QC : forall bk pd, QU (with_thr (with_backend sC bk pd) t Idle)).
+  { intros bk pd e'. cbn [ents with_thr with_backend].
+    destruct (Nat.eq_dec e' e) as [->|Hne]; [rewrite EC; auto|rewrite OC by exact Hne; apply Q]. }
+  assert (Fnb : forall rest, find_b k (nb :: rest) = Some nb).
+  { intros rest. cbn. rewrite list_eqb_refl. reflexivity. }
+  assert (Foth : forall k' rest, list_eqb k' k = false -> find_b k' (nb :: rest) = find_b k' rest).
+  { intros k' rest H. cbn. rewrite H. reflexivity. }
+  assert (Fothers : forall k' bs, list_eqb k' k = false -> find_b k' (others k bs) = find_b k' bs).
+  { intros k' bs H. induction bs as [|b bs IH]; cbn; [reflexivity|].
+    destruct (list_eqb k (b_k b)) eqn:E1; cbn.
+    - apply list_eqb_eq in E1. subst. rewrite H. exact IH.
+    - destruct (list_eqb k' (b_k b)); auto. }
+  destruct (find_b k (backend sC)) as [b0|] eqn:Fb.
+  - set (sD := with_thr (with_backend sC (nb :: others k (backend sC))
+                  (map (fun b => (b_k b, b_e b)) (same k (backend sC)) ++ pend sC)) t Idle).
+    assert (SD : step_thread sC t None = Some sD).
+    { unfold step_thread. rewrite TC, Fb. unfold sD, nb. rewrite CC. reflexivity. }
+    exists sD. split.
+    { erewrite drive_next; [|rewrite TL; discriminate|exact SA].
+      erewrite drive_next; [|rewrite TA; discriminate|exact SB].
+      erewrite drive_next; [|rewrite TB; discriminate|exact SC].
+      erewrite drive_next; [apply drive_idle|rewrite TC; discriminate|exact SD].
+      unfold sD; cbn. apply upd_same. }
+    split; [unfold sD; cbn [backend with_thr with_backend]; apply Fnb|].
+    split; [exact EC|]. split; [apply QC|]. split; [exact NC|]. split; [exact CC|]. split.
+    + intros k' H. unfold sD; cbn [backend with_thr with_backend]. rewrite Foth by exact H.
+      rewrite BC. apply Fothers. exact H.
+    + intros e' Hne. apply OC. exact Hne.
+  - set (sD := with_thr (with_backend sC (nb :: backend sC) (pend sC)) t Idle).
+    assert (SD : step_thread sC t None = Some sD).
+    { unfold step_thread. rewrite TC, Fb. unfold sD, nb. rewrite CC. reflexivity. }
+    exists sD. split.
+    { erewrite drive_next; [|rewrite TL; discriminate|exact SA].
+      erewrite drive_next; [|rewrite TA; discriminate|exact SB].
+      erewrite drive_next; [|rewrite TB; discriminate|exact SC].
+      erewrite drive_next; [apply drive_idle|rewrite TC; discriminate|exact SD].
+      unfold sD; cbn. apply upd_same. }
+    split; [unfold sD; cbn [backend with_thr with_backend]; apply Fnb|].
+    split; [exact EC|]. split; [apply QC|]. split; [exact NC|]. split; [exact CC|]. split.
+    + intros k' H. unfold sD; cbn [backend with_thr with_backend]. rewrite Foth by exact H.
+      rewrite BC. reflexivity.
+    + intros e' Hne. apply OC. exact Hne.
+Qed.
+
+Lemma big_store_spec s k v ttl : QU s ->
+  exists s2 e, big_store k v ttl false s = Some s2 /\
+    find_b k (backend s2) = Some (mkB k e (bclk s + ceil_s ttl)) /\
+    ents s2 e = mkEntry k (Some v) None [] /\ QU s2 /\ now s2 = now s /\ bclk s2 = bclk s.
+Proof.
+  intros Q. unfold big_store. cbn [step].
+  set (t := nthr s). set (s1 := with_ev (spawn s (SNew k v ttl false)) (EvStore k v)).
+  assert (T1 : thr s1 t = SNew k v ttl false) by (unfold s1; cbn; apply upd_same).
+  unfold pool_choice. change (free s1) with (free s).
+  destruct (free s) as [|e0 fr] eqn:Fr.
+  - set (sL := with_thr (with_pool s1 (S (nent s)) (free s1) (nent s :: issued s1)) t (SLock k v ttl false (nent s))).
+    assert (S1 : step_thread s1 t None = Some sL) by (unfold step_thread; rewrite T1; reflexivity).
+    change (step s1 (LStep t None)) with (step_thread s1 t None). rewrite S1.
+    destruct (store_from_lock sL t k v ttl (nent s)) as (s2 & D & F & E & Q2 & N2 & C2 & _);
+      [unfold sL; cbn; apply upd_same|intros e'; apply Q|].
+    exists s2, (nent s). repeat split; auto; try apply Q2.
+  - set (sL := with_thr (with_pool s1 (nent s1) fr (e0 :: issued s1)) t (SLock k v ttl false e0)).
+    assert (S1 : step_thread s1 t (Some 0) = Some sL).
+    { unfold step_thread. rewrite T1. change (free s1) with (free s). rewrite Fr. reflexivity. }
+    change (step s1 (LStep t (Some 0))) with (step_thread s1 t (Some 0)). rewrite S1.
+    destruct (store_from_lock sL t k v ttl e0) as (s2 & D & F & E & Q2 & N2 & C2 & _);
+      [unfold sL; cbn; apply upd_same|intros e'; apply Q|].
+    exists s2, e0. repeat split; auto; try apply Q2.
+Qed.
+
+(* operations that neither store nor evict: lookups (of any key) and the passage of time *)
+Definition passive (o : op) : Prop := match o with OGet _ | OSleep _ => True | _ => False end.
+
+Lemma big_sleep_spec s d s1 : clock_ok s -> big_sleep d s = Some s1 ->
+  backend s1 = backend s /\ (forall e, ents s1 e = ents s e) /\ clock_ok s1.
+Proof.
+  intros [C1 C2] E. unfold big_sleep in E. cbn [step] in E.
+  assert ((bclk s <=? now s)%N && (now s <=? now s)%N = true) as Hs
+    by (apply andb_true_iff; split; apply N.leb_le; lia).
+  rewrite Hs in E. destruct (d <? 1000)%N eqn:Hd; [|discriminate]. apply N.ltb_lt in Hd.
+  cbn [step now bclk with_time] in E.
+  assert ((now s + d <? now s + 1000)%N = true) as Ht by (apply N.ltb_lt; lia).
+  rewrite Ht in E. inversion E; subst. unfold clock_ok. cbn. repeat split; auto; lia.
+Qed.
+
+(* (conversion hint for the kernel, as above) *)
+Opaque big_store big_get big_evict big_race big_sleep.
+
+Lemma passive_step o s s1 : passive o -> QU s -> clock_ok s -> big_op o s = Some s1 ->
+  backend s1 = backend s /\ (forall e, ents s1 e = ents s e) /\ QU s1 /\ clock_ok s1.
+Proof.
+  intros Ho Q C E. destruct o; try contradiction; cbn [big_op] in E.
+  - destruct (big_get_spec s k Q) as (s1' & G & B & En & Nw & Ck & _). rewrite G in E. inversion E; subst.
+    split; [exact B|]. split; [exact En|]. split.
+    + intros e9. rewrite En. apply Q.
+    + unfold clock_ok in *. rewrite Nw, Ck. exact C.
+  - destruct (big_sleep_spec s d s1 C E) as (B & En & C1).
+    split; [exact B|]. split; [exact En|]. split; [|exact C1]. intros e9. rewrite En. apply Q.
+Qed.
+
+Lemma passive_run ops : forall s s', Forall passive ops -> QU s -> clock_ok s -> big_run ops s = Some s' ->
+  backend s' = backend s /\ (forall e, ents s' e = ents s e) /\ QU s' /\ clock_ok s'.
+Proof.
+  induction ops as [|o ops IH]; intros s s' Hp Q C H; cbn [big_run] in H.
+  - inversion H; subst. auto.
+  - inversion Hp as [|? ? Ho Hps]; subst.
+    destruct (big_op o s) as [s1|] eqn:E; [|discriminate].
+    destruct (passive_step o s s1 Ho Q C E) as (B1 & E1 & Q1 & C1).
+    destruct (IH s1 s' Hps Q1 C1 H) as (B2 & E2 & Q2 & C2).
+    split; [congruence|]. split; [intros e9; rewrite E2; apply E1|]. split; assumption.
+Qed.
+
+(* C07_repeat_hits *)
+Theorem repeat_hits s k v ttl : QU s -> clock_ok s ->
+  exists s2, big_store k v ttl false s = Some s2 /\
+    forall ops s3, Forall passive ops -> big_run ops s2 = Some s3 ->
+      (now s3 + 1000 < now s + ttl)%N ->                      (* more than 1 s of the lifetime remains *)
+      exists s4, big_get k s3 = Some s4 /\ trace s4 = EvHit k v :: trace s3.
+Proof.
+  intros Q C. destruct (big_store_spec s k v ttl Q) as (s2 & e & St & Fb & En & Q2 & N2 & C2).
+  exists s2. split; [exact St|]. intros ops s3 Hp Hr Hlife.
+  assert (Ck2 : clock_ok s2) by (unfold clock_ok in *; rewrite N2, C2; exact C).
+  destruct (passive_run ops s2 s3 Hp Q2 Ck2 Hr) as (B3 & E3 & Q3 & C3).
+  destruct (big_get_spec s3 k Q3) as (s4 & G & _ & _ & _ & _ & Tr).
+  exists s4. split; [exact G|]. rewrite Tr. f_equal.
+  unfold get_result. rewrite B3, Fb. cbn [b_exp b_e]. rewrite E3, En. cbn [e_v e_k].
+  rewrite list_eqb_refl.
+  assert ((bclk s3 <? bclk s + ceil_s ttl)%N = true) as ->; [|reflexivity].
+  apply N.ltb_lt. pose proof (ceil_s_ge ttl). unfold clock_ok in *. lia.
+Qed.
+
+(* the states in which the correspondence check issues its operations are quiescent: *)
+Definition simple (o : op) : Prop :=
+  match o with OStore _ _ _ false | OGet _ | OSleep _ => True | _ => False end.
+
+Theorem simple_history_quiescent ops : forall s s', Forall simple ops -> QU s -> clock_ok s ->
+  big_run ops s = Some s' -> QU s' /\ clock_ok s'.
+Proof.
+  induction ops as [|o ops IH]; intros s s' Hp Q C H; cbn [big_run] in H.
+  - inversion H; subst. auto.
+  - inversion Hp as [|? ? Ho Hps]; subst.
+    destruct (big_op o s) as [s1|] eqn:E; [|discriminate].
+    assert (X : QU s1 /\ clock_ok s1).
+    { destruct o; try contradiction.
+      - destruct nx; [contradiction|]. cbn [big_op] in E.
+        destruct (big_store_spec s k v ttl Q) as (s2 & e & St & _ & _ & Q2 & N2 & C2).
+        rewrite St in E. inversion E; subst. split; auto. unfold clock_ok in *. rewrite N2, C2. exact C.
+      - destruct (passive_step (OGet k) s s1) as (_ & _ & Q1 & C1); cbn; auto.
+      - destruct (passive_step (OSleep d) s s1) as (_ & _ & Q1 & C1); cbn; auto. }
+    destruct X as [Q1 C1]. eapply IH; eauto.
+Qed.
+Transparent big_store big_get big_evict big_race big_sleep.
+
+(* from the initial state: after any quiescent history of stores, lookups and sleeps *)
+Corollary repeat_hits_history : forall ops1 s1 k v ttl,
+  Forall simple ops1 -> big_run ops1 init = Some s1 ->
+  exists s2, big_store k v ttl false s1 = Some s2 /\
+    forall ops2 s3, Forall passive ops2 -> big_run ops2 s2 = Some s3 ->
+      (now s3 + 1000 < now s1 + ttl)%N ->
+      exists s4, big_get k s3 = Some s4 /\ trace s4 = EvHit k v :: trace s3.
+Proof.
+  intros ops1 s1 k v ttl Hs Hr.
+  destruct (simple_history_quiescent ops1 init s1 Hs init_QU init_clock Hr) as [Q C].
+  apply repeat_hits; assumption.
+Qed.
